@@ -83,9 +83,19 @@ def random_program(rng, nvars=4, nstmts=6, nphases=2):
     phases = []
     for p in range(nphases):
         stmts = []
+        defined = []
         for i in range(rng.randint(1, nstmts)):
             tgt = rng.choice(names)
-            form = rng.choice(["call", "sum", "prod", "copy", "cmp", "const", "sub"])
+            form = rng.choice(["call", "call", "const", "sum", "prod", "copy", "cmp", "sub"])
+            if form in ("sum", "prod", "copy", "cmp", "sub") and defined and rng.random() < 0.8:
+                pick = lambda: rng.choice(defined)   # noqa
+                if form in ("sum", "prod"):
+                    stmts.append([form, tgt, pick(), pick()])
+                else:
+                    stmts.append([form, tgt, pick()])
+                defined.append(tgt)
+                continue
+            defined.append(tgt)
             if form == "call":
                 stmts.append(["call", tgt, rng.choice(SRC)])
             elif form == "sum":
@@ -186,6 +196,9 @@ def order_failure(phases_desc, perms=(1, 2, 3)):
     return None
 
 
+FINGERPRINTS = {"D5_conflicting_kinds_first_wins": lambda inp: inp.get("kind") == "order" and conflicting_kinds(inp["phases"])}
+
+
 def replay(inp):
     if inp.get("kind") == "law":
         d = law_failure(inp["law"], dec(inp["a"]), dec(inp["b"]), dec(inp["c"]) if inp.get("c") else None)
@@ -201,6 +214,7 @@ def bounded(payload):
     seed = payload.get("seed", 0)
     rng = random.Random(seed)
     failures, known_hits, samples = [], [], []
+    known_fps = {e.get("fingerprint") for e in payload.get("known", [])}
     evals = 0
     distinct = set()
     Ks = kinds_universe()
@@ -235,7 +249,7 @@ def bounded(payload):
         if i < 2:
             samples.append({"program": desc, "result": base[0]})
         if d:
-            if conflicting_kinds(desc):
+            if "D5_conflicting_kinds_first_wins" in known_fps and conflicting_kinds(desc):
                 d5 += 1
                 continue
             failures.append({"oracle": "order-independence", "input": {"kind": "order", "phases": desc},
